@@ -282,6 +282,11 @@ pub fn run(lines: &[Value], opts: &FlowOpts, trace_path: &str) -> Summary {
                     x[i] = rng.gen_range(1e-3..1.0 - 1e-3);
                 }
             }
+            // now and then Box-Muller coordinates next to the ends of (0,1)
+            if r == 2 && dim > 2 * e - 1 {
+                for i in (2 * e - 1)..dim { if rng.gen_bool(0.5) { x[i] = [1.0 - 1e-9, 1.0 - f64::EPSILON / 2.0, 1e-300, f64::MIN_POSITIVE, 1e-12][rng.gen_range(0..5)]; } }
+                sm.count("runs_with_extreme_box_muller");
+            }
             // now and then one xi so small that the running product kappa underflows to 0
             if e >= 3 && r == 1 && ngraphs % 5 == 0 {
                 let k = rng.gen_range(0..e - 1);
